@@ -216,7 +216,7 @@ pub fn generate(o: &GenOpts) -> Vec<Sample> {
         }
         if o.kind == "manyorphans" && i == o.n_samples - 1 {
             for j in 0..(16 * 50 + 40) {
-                contigs.push(Contig { name: cname(o, &sn, 1000 + j, false), seq: rand_seq(&mut r, 3 + j % 5) });
+                contigs.push(Contig { name: cname(o, &sn, 1000 + j, false), seq: rand_seq(&mut r, 6 + j % 5) });   // 6..10 bases (< k = 11: no k-mer, raw groups), long enough to be pairwise distinct: every raw group gets >= 49 distinct entries (its first pack fills)
             }
         }
         samples.push(Sample { name: sn, contigs });
